@@ -4,6 +4,7 @@ mod c06;
 mod c10;
 mod c11;
 mod consumer;
+mod c12;
 mod c13;
 mod c14;
 mod c15;
@@ -51,6 +52,7 @@ fn main() {
         "c14" => c14::run(&out, &tier, seed, shards, replay),
         "c05" => c05::run(&out, &tier, seed, shards, replay),
         "c06" => c06::run(&out, &tier, seed, shards, replay),
+        "c12" => c12::run(&out, &tier, seed, shards, replay),
         "c11" => c11::run(&out, &tier, seed, shards, replay),
         other => {
             eprintln!("unknown command {}", other);
